@@ -25,7 +25,7 @@ from harness import common as C
 META = {
     "id": "C10",
     "technique": "Coq proof (set-iteration oracle model of variable promotion; sorted() sites; inventory of set iterations and module state regenerated from the source by an ast walker) + extracted-model correspondence with parse()+emit() and with _promote_branch_decls under dictated iteration orders + sha256 oracle across PYTHONHASHSEED subprocesses / dictated set iteration orders / repeated / interleaved transpilations",
-    "level_text": "Theorems C10_* (coq/Props/C10.v): sorted() sites are order independent; promotion is independent of the set-iteration oracle for constructs (and whole programs of the modelled fragment) with at most one new name per branch, and refuted beyond (C10_promotion_order_refuted: the output order does depend on the oracle - known finding); only the ORDER can vary (C10_result_is_permutation); every set iteration found in the current parser.py/emitter.py by the translator is sorted, order-insensitive or modelled (C10_sites_accounted) and no function mutates module-level state (C10_no_module_state). The model is run against the real parse()+emit() skeleton and against _promote_branch_decls with dictated orders; the property itself is tested by sha256 across hash seeds, processes, repetitions and interleavings.",
+    "level_text": "Theorems C10_* (coq/Props/C10.v): sorted() sites are order independent; promotion is independent of the set-iteration oracle for constructs (and whole programs of the modelled fragment) whose branches each contribute at most one not-yet-recorded new name, and refuted beyond (C10_promotion_order_refuted: the output order does depend on the oracle - known finding); only the ORDER can vary (C10_result_is_permutation); every set iteration found in the current parser.py/emitter.py by the translator is sorted, order-insensitive or modelled (C10_sites_accounted) and no function mutates module-level state (C10_no_module_state). The model is run against the real parse()+emit() skeleton and against _promote_branch_decls with dictated orders; the property itself is tested by sha256 across hash seeds, processes, repetitions and interleavings.",
     "level_note": "Trusted: Coq kernel, translator harness/gen/setsites.py (syntactic, fail-closed ast walker), extraction, OCaml driver, CPython's PYTHONHASHSEED as the source of set-order variation. CPython set internals are over-approximated by an arbitrary permutation oracle; absence of module-level state is shown statically for the two transpiler files (ast walk) and by observation (repeated / interleaved transpilations), not by proof about CPython.",
     "design_ref": "DESIGN.md section 4 C10, Appendix B.1, B.3",
 }
@@ -1093,7 +1093,7 @@ def run(ctx: C.Ctx):
         "rule": "skeleton programs: templates (k = 0..6 names first assigned in an if / if-else / if-elif-else / while / for / try body, at top level, in a function, in the main loop, nested) + seeded random nested programs; device programs: random subsets of every device class with 0..6 instances, callbacks, lists, multi-signature functions, tuple swaps; mixed = both. Every program is transpiled in one subprocess per hash seed and per dictated set order (the name `set` of parser.py/emitter.py bound to a subclass iterating sorted / reverse sorted / in a keyed pseudo-random order), then in one process twice in a row, in reverse order between unrelated programs, shuffled, and (a sample) in fresh processes; sha256 of the text is compared. Non-trivial = in-guard programs that hoist at least one declaration, device programs whose sorted sites have >= 2 elements, and every dictated-order promotion case.",
         "samples": [skels[0]["src"], skels[len(skels) // 2]["src"], devs[0]["src"][:1500]],
         "distribution": dist,
-        "guard": "model-decided (Order.guard on every construct met by Order.transl): every if/elif/else/try/except branch declares at most one new name (nested constructs included) and every new name of a while/for body is met as a declaration node in the body; programs outside the guard are still used for the correspondence but not for the byte-identity oracle (known finding F-C10-promotion-order)",
+        "guard": "model-decided (Order.guard on every construct met by Order.transl, i.e. o_ok): every if/elif/else/try/except branch contributes at most one name that is neither declared before the construct nor already recorded by an earlier branch of it (names hoisted out of nested constructs included), and every new name of a while/for body is met as a declaration node in the body; programs outside the guard are still used for the correspondence but not for the byte-identity oracle (known finding F-C10-promotion-order)",
         "unmodelled": ["CPython set/dict internals (over-approximated by an arbitrary permutation per construct)",
                        "_promotion_cpp_types staleness across scopes (generated names are type-stable except in flat if/try templates)",
                        "everything of the translation except declarations and block structure (expression text, devices) - covered by the sha256 oracle only",
